@@ -623,9 +623,22 @@ def run_iface(ctx, c, f, ref, rpos, cpos):
         bits = rng_r
         mask = [[(bits >> ((i * m + j) % 20)) & 1 for j in range(m)] for i in range(n)]
         key = sf.Frame(np.array(mask, dtype=bool).reshape(n, m), index=f.index, columns=f.columns)
-        res = f.assign.bloc[key](val)
-        exp = [[val_t if mask[i][j] else ref.cols[j][i] for i in range(n)] for j in range(m)]
-        return compare_frame(res, ref, exp)
+        if (rng_r // 7) % 3 == 0 or n == 0 or m == 0:
+            res = f.assign.bloc[key](val)
+            exp = [[val_t if mask[i][j] else ref.cols[j][i] for i in range(n)] for j in range(m)]
+            return compare_frame(res, ref, exp)
+        # a Frame value, aligned by label: one 1-D block per column, labels permuted, so that the value arrives in narrower
+        # pieces than the blocks of the target; cells not addressed by the key keep their value
+        ctx.count('assign_bloc_frame_value')
+        rl, cl = list(f.index), list(f.columns)
+        rperm = rl[::-1] if (rng_r // 21) % 2 else rl
+        cperm = cl[1:] + cl[:1] if (rng_r // 42) % 2 else cl
+        cell = lambda r_, c_: 1000 + 10 * rl.index(r_) + cl.index(c_)
+        vf = sf.Frame.from_items(((c_, np.array([cell(r_, c_) for r_ in rperm], dtype=np.int64)) for c_ in cperm), index=rperm)
+        res = f.assign.bloc[key](vf)
+        exp = [[tok(np.int64(cell(rl[i], cl[j]))) if mask[i][j] else ref.cols[j][i] for i in range(n)] for j in range(m)]
+        what = compare_frame(res, ref, exp, dtype_cols=[])
+        return what
     if iface == 'drop':
         route, prk, pck, rp, cp = keys_for_route(f, c, rpos, cpos)
         which = rng_r % 3
